@@ -8,3 +8,17 @@ func VerifSimReset() {
 
 // VerifSimBufferCap returns the capacity of the log buffer.
 func VerifSimBufferCap() int { return cap(logBuffer) }
+
+// VerifSimTracerLines returns the messages collected on the tracer of a
+// submitted line (nil if the line has no tracer).
+func VerifSimTracerLines(m Message) []string {
+	ll, ok := m.(*logLine)
+	if !ok || ll.tracer == nil {
+		return nil
+	}
+	out := []string{}
+	for _, l := range ll.tracer.logs {
+		out = append(out, l.msg)
+	}
+	return out
+}
